@@ -611,7 +611,11 @@ impl<'a, B: BitmapSlice> VolatileSlice<'a, B> {
         // operations such as copy with read_volatile and write_volatile?
         unsafe {
             let count = min(self.size, slice.size);
-            copy(self.addr, slice.addr, count);
+            // Access both sides through pointer guards, so that memory which is mapped on
+            // demand is mapped for the duration of the copy.
+            let src = self.ptr_guard();
+            let dst = slice.ptr_guard_mut();
+            copy(src.as_ptr(), dst.as_ptr(), count);
             slice.bitmap.mark_dirty(0, count);
         }
     }
@@ -1252,7 +1256,11 @@ where
         // operations such as copy with read_volatile and write_volatile?
         unsafe {
             let count = min(self.len() * self.element_size(), slice.size);
-            copy(self.addr, slice.addr, count);
+            // Access both sides through pointer guards, so that memory which is mapped on
+            // demand is mapped for the duration of the copy.
+            let src = self.ptr_guard();
+            let dst = slice.ptr_guard_mut();
+            copy(src.as_ptr(), dst.as_ptr(), count);
             slice.bitmap.mark_dirty(0, count);
         }
     }
